@@ -36,4 +36,61 @@ theorem var_standardize (x : Fin n → ℝ) (hn : 0 < n) (hv : var x ≠ 0) : va
   have : (∑ i, (x i - mean x)^2) / (n:ℝ) = var x := rfl
   rw [this, div_self hv]
 
+/-! ## The algorithm of `Phenotypes.standardize` after F31 and F33: scale by a power of two, centre, centre again, divide
+
+Over the reals the scaling cancels and the second centring is the identity (the mean of a centred column is 0): the three
+steps compute `standardize`.  In floating point the scaling keeps squares representable (F31) and the second centring
+removes the rounding error of the first mean (F33); neither changes what is computed. -/
+
+noncomputable def center (x : Fin n → ℝ) : Fin n → ℝ := fun i => x i - mean x
+
+noncomputable def standardizeCode (c : ℝ) (x : Fin n → ℝ) : Fin n → ℝ :=
+  let cen := center (center (fun i => c * x i))
+  fun i => cen i / Real.sqrt ((∑ j, (cen j)^2) / n)
+
+theorem mean_center (x : Fin n → ℝ) (hn : 0 < n) : mean (center x) = 0 := by
+  have hn' : (n : ℝ) ≠ 0 := by exact_mod_cast hn.ne'
+  unfold center
+  unfold mean
+  rw [Finset.sum_sub_distrib]
+  simp only [Finset.sum_const, Finset.card_univ, Fintype.card_fin, nsmul_eq_mul]
+  field_simp
+  ring
+
+theorem center_center (x : Fin n → ℝ) (hn : 0 < n) : center (center x) = center x := by
+  funext i
+  show center x i - mean (center x) = center x i
+  rw [mean_center x hn, sub_zero]
+
+theorem mean_scale (c : ℝ) (x : Fin n → ℝ) : mean (fun i => c * x i) = c * mean x := by
+  unfold mean
+  rw [← Finset.mul_sum, mul_div_assoc]
+
+theorem center_scale (c : ℝ) (x : Fin n → ℝ) : center (fun i => c * x i) = fun i => c * center x i := by
+  funext i
+  show c * x i - mean (fun i => c * x i) = c * (x i - mean x)
+  rw [mean_scale]; ring
+
+/-- **the code's algorithm computes the definition**, for every positive scale factor -/
+theorem standardizeCode_eq (c : ℝ) (hc : 0 < c) (x : Fin n → ℝ) (hn : 0 < n) (hv : var x ≠ 0) :
+    standardizeCode c x = standardize x := by
+  have hvpos : 0 < var x := by
+    have : 0 ≤ var x := by
+      unfold var; apply div_nonneg (Finset.sum_nonneg (fun i _ => sq_nonneg _)) (by positivity)
+    exact lt_of_le_of_ne this (Ne.symm hv)
+  unfold standardizeCode
+  rw [center_center _ hn, center_scale]
+  have hsum : (∑ j : Fin n, (c * center x j)^2) / (n:ℝ) = c^2 * var x := by
+    unfold var center
+    simp only [mul_pow]
+    rw [← Finset.mul_sum, mul_div_assoc]
+  funext i
+  simp only [hsum]
+  rw [Real.sqrt_mul (sq_nonneg c), Real.sqrt_sq hc.le]
+  unfold standardize center
+  have hs : Real.sqrt (var x) ≠ 0 := by
+    rw [Real.sqrt_ne_zero']; exact hvpos
+  field_simp
+
+#print axioms standardizeCode_eq
 #print axioms var_standardize
